@@ -3,7 +3,7 @@
 from __future__ import annotations
 
 import ast
-from typing import Optional
+from typing import Dict, Optional
 
 from ..kit import (Kit, is_call, key, norm, positive_guard)
 from ..index import dotted, names_read
@@ -252,3 +252,71 @@ def inbound_state_table(k: Kit, rule: str, only=None) -> None:
                   f'accepted exactly in {sorted(legal)}', str(bad),
                   fi.loc(fi.node))
     rep.floor(rule, 'inbound handler states', n, 5)
+
+
+MUTATORS = {'append', 'extend', 'insert', 'pop', 'popitem', 'remove', 'clear',
+            'update', 'setdefault', 'add', 'discard', 'sort', 'reverse'}
+
+
+def per_instance_state(k: Kit, rule: str, modules, floor: int) -> None:
+    """No per-session table lives in a class attribute: a mutable container
+    that methods mutate through `self.X` is (re)bound in a constructor of
+    the class or of a base class, so that two instances never share it."""
+    rep = k.rep
+    idx = k.idx
+    n = 0
+    for ms in modules:
+        mod = idx.module(ms)
+        for cls in mod.classes.values():
+            mutated: Dict[str, ast.AST] = {}
+            for f in cls.methods.values():
+                for x in ast.walk(f.node):
+                    tgt = None
+                    if isinstance(x, (ast.Assign, ast.AugAssign, ast.Delete)):
+                        ts = x.targets if not isinstance(x, ast.AugAssign) \
+                            else [x.target]
+                        for t in ts:
+                            if isinstance(t, ast.Subscript):
+                                tgt = dotted(t.value)
+                                if tgt and tgt.startswith('self.'):
+                                    mutated.setdefault(tgt[5:], x)
+                    elif isinstance(x, ast.Call) and \
+                            isinstance(x.func, ast.Attribute) and \
+                            x.func.attr in MUTATORS:
+                        tgt = dotted(x.func.value)
+                        if tgt and tgt.startswith('self.') and \
+                                tgt.count('.') == 1:
+                            mutated.setdefault(tgt[5:], x)
+            for name, site in sorted(mutated.items()):
+                n += 1
+                # where does the container come from?
+                bound = False
+                cls_level = None
+                for c in idx.mro(cls):
+                    init = c.methods.get('__init__')
+                    if init is not None and \
+                            k.stores_to(init, 'self.' + name):
+                        bound = True
+                    for st in c.node.body:
+                        tg = st.targets[0] if isinstance(st, ast.Assign) \
+                            else st.target if isinstance(st, ast.AnnAssign) \
+                            else None
+                        val = getattr(st, 'value', None)
+                        if isinstance(tg, ast.Name) and tg.id == name and \
+                                val is not None and cls_level is None:
+                            cls_level = st
+                if cls_level is None or bound:
+                    continue
+                rep.violation(rule, f'{cls.qual}|{name} is per instance',
+                              f'{cls.qual} mutates self.{name} '
+                              f'(`{norm(site)[:60]}`) but the container is '
+                              'created once at class level '
+                              f'(line {cls_level.lineno}) and never bound in '
+                              'a constructor: every instance in the process '
+                              'shares it - a reply is handed to another '
+                              'session\'s waiter',
+                              f'{mod.relpath}:{cls_level.lineno}')
+    rep.ok(rule, 'mutated containers are instance state',
+           f'{n} (class, field) pairs mutated through self: none is a bare '
+           'class attribute')
+    rep.floor(rule, 'mutated self containers', n, floor)
